@@ -26,7 +26,7 @@ func (a *audienceMember) checkExpr(cfg *config, expSrc string) (expr, error) {
 		return expr{}, err
 	}
 
-	compiledExp, err := govaluate.NewEvaluableExpressionWithFunctions(expSrc, evalFunctions)
+	compiledExp, err := compileExpr(expSrc)
 	if err != nil {
 		return expr{}, err
 	}
@@ -92,6 +92,21 @@ func (a *audienceMember) checkExpr(cfg *config, expSrc string) (expr, error) {
 		e.deps[vn] = struct{}{}
 	}
 	return e, nil
+}
+
+// compileExpr compiles an expression. The expression compiler is
+// known to panic on some malformed inputs (e.g. a trailing backslash);
+// such a panic is reported as a regular syntax error.
+func compileExpr(
+	expSrc string,
+) (compiledExp *govaluate.EvaluableExpression, err error) {
+	defer func() {
+		if r := recover(); r != nil {
+			compiledExp = nil
+			err = errors.Newf("invalid expression %q: %v", expSrc, r)
+		}
+	}()
+	return govaluate.NewEvaluableExpressionWithFunctions(expSrc, evalFunctions)
 }
 
 // hasDeps return true when all the dependencies of an expression are satisified.
